@@ -2,6 +2,7 @@
    LoadFromIdx / doLoading / makeupDiff, the copy phases, the idx suffix written by operations. -/
 import SwV.Model.C04
 import SwV.Spec.C04
+import SwV.Spec.C01
 namespace SwV.Lemmas.C04
 open SwV.Model.C01 SwV.Model.C04 SwV.Spec.C04
 
@@ -225,5 +226,520 @@ theorem keysLt_loadFromIdx (l : List IEnt) : KeysLt (loadFromIdx l) := by
       · simp only [hd, if_true]; exact keysLt_mdel _ h
       · simp only [hd, if_false]; exact keysLt_mset _ h
   exact this [] List.Pairwise.nil
+
+
+/-! ## doLoading / generateLevelDbFile -/
+
+theorem validEnt_iff (e : IEnt) : validEnt e = true ↔ e.off ≠ 0 ∧ 0 < e.size := by
+  simp [validEnt]
+
+theorem setIdx_same (m : Nat → Option Ent) (k : Nat) (e : Ent) : setIdx m k e k = some e := by simp [setIdx]
+theorem setIdx_ne (m : Nat → Option Ent) {j k : Nat} (e : Ent) (h : k ≠ j) : setIdx m j e k = m k := by simp [setIdx, h]
+
+theorem delIdx_ne (kind : Kind) (m : Nat → Option Ent) {j k : Nat} (h : k ≠ j) : delIdx kind m j k = m k := by
+  cases kind with
+  | ldb => simp [delIdx, h]
+  | mem =>
+    unfold delIdx
+    simp only
+    cases m j with
+    | none => rfl
+    | some e => by_cases hp : 0 < e.size <;> simp [hp, setIdx, h]
+
+/-- the index value of key `k` after loading an idx file whose last entry for `k` is `acc` -/
+def RelOK (k : Nat) (m : Nat → Option Ent) (acc : Option IEnt) : Prop :=
+  (∀ e', m k = some e' → e'.size ≠ 0) ∧
+  (match acc with
+   | none => m k = none
+   | some e => if validEnt e = true then m k = some ⟨e.off, e.size⟩ else (m k = none ∨ ∃ e', m k = some e' ∧ e'.size < 0))
+
+theorem reload_char_aux (kind : Kind) (l : List IEnt) (k : Nat) (m : Nat → Option Ent) (acc : Option IEnt)
+    (h : RelOK k m acc) :
+    RelOK k (l.foldl (fun m e => if validEnt e then setIdx m e.key ⟨e.off, e.size⟩ else delIdx kind m e.key) m)
+            (l.foldl (fun acc e => if e.key = k then some e else acc) acc) := by
+  induction l generalizing m acc with
+  | nil => exact h
+  | cons x xs ih =>
+    simp only [List.foldl_cons]
+    apply ih
+    by_cases hk : x.key = k
+    · by_cases hv : validEnt x = true
+      · have := (validEnt_iff x).1 hv
+        simp only [hv, if_true, hk]
+        refine ⟨?_, ?_⟩
+        · intro e' he'; rw [setIdx_same] at he'; cases he'; simp; omega
+        · simp [hv, setIdx_same]
+      · simp only [hv, hk, if_true]
+        simp only [Bool.false_eq_true, if_false]
+        have hv' : ¬ (validEnt x = true) := hv
+        cases kind with
+        | ldb =>
+          refine ⟨?_, ?_⟩
+          · intro e' he'; simp [delIdx] at he'
+          · simp [hv', delIdx]
+        | mem =>
+          cases hm : m k with
+          | none =>
+            have : delIdx Kind.mem m k = m := by simp [delIdx, hm]
+            rw [this]
+            exact ⟨by simp [hm], by simp [hv', hm]⟩
+          | some e =>
+            by_cases hp : 0 < e.size
+            · have : delIdx Kind.mem m k k = some ⟨e.off, -e.size⟩ := by simp [delIdx, hm, hp, setIdx]
+              refine ⟨?_, ?_⟩
+              · intro e' he'; rw [this] at he'; cases he'; simp; omega
+              · simp only [hv', if_false]; exact Or.inr ⟨_, this, by simp; omega⟩
+            · have : delIdx Kind.mem m k = m := by simp [delIdx, hm, hp]
+              rw [this]
+              have hne := h.1 e hm
+              exact ⟨h.1, by simp only [hv', if_false]; exact Or.inr ⟨e, hm, by omega⟩⟩
+    · have hk' : k ≠ x.key := fun h => hk h.symm
+      have hm : (if validEnt x = true then setIdx m x.key ⟨x.off, x.size⟩ else delIdx kind m x.key) k = m k := by
+        by_cases hv : validEnt x = true
+        · simp only [hv, if_true]; exact setIdx_ne _ _ hk'
+        · simp only [hv]; exact delIdx_ne _ _ hk'
+      simp only [hk, if_false]
+      unfold RelOK
+      rw [hm]
+      exact h
+
+theorem reload_char (kind : Kind) (l : List IEnt) (k : Nat) : RelOK k (reloadIdx kind l) (lastFor l k) :=
+  reload_char_aux kind l k (fun _ => none) none ⟨by simp, rfl⟩
+
+/-! ## the new index written by the copy phases -/
+
+theorem mget_foldl_mset (l : List IEnt) (m : List IEnt) (k : Nat) :
+    mget (l.foldl mset m) k = (lastFor l k).or (mget m k) := by
+  induction l generalizing m with
+  | nil => simp [lastFor]
+  | cons x xs ih =>
+    simp only [List.foldl_cons]
+    rw [ih, mget_mset, lastFor_cons]
+    by_cases h : x.key = k <;> simp [h, Option.or_assoc]
+
+theorem keysLt_foldl_mset (l : List IEnt) (m : List IEnt) (h : KeysLt m) : KeysLt (l.foldl mset m) := by
+  induction l generalizing m with
+  | nil => exact h
+  | cons x xs ih => exact ih _ (keysLt_mset x h)
+
+def cpxEnts (keep : List (Nat × Rec × Nat)) : List IEnt :=
+  (keep.zipIdx 1).map fun p => (⟨p.1.2.1.id, p.2, p.1.2.1.size⟩ : IEnt)
+
+theorem cpxOf_eq (keep : List (Nat × Rec × Nat)) : cpxOf keep = (cpxEnts keep).foldl mset [] := by
+  simp [cpxOf, cpxEnts, List.foldl_map]
+
+theorem keysLt_cpxOf (keep : List (Nat × Rec × Nat)) : KeysLt (cpxOf keep) := by
+  rw [cpxOf_eq]; exact keysLt_foldl_mset _ _ List.Pairwise.nil
+
+theorem mget_cpxOf (keep : List (Nat × Rec × Nat)) (k : Nat) : mget (cpxOf keep) k = lastFor (cpxEnts keep) k := by
+  rw [cpxOf_eq, mget_foldl_mset]; simp [mget]
+
+theorem lastFor_cpxOf (keep : List (Nat × Rec × Nat)) (k : Nat) : lastFor (cpxOf keep) k = lastFor (cpxEnts keep) k := by
+  rw [lastFor_eq_mget (keysLt_cpxOf keep), mget_cpxOf]
+
+theorem mem_cpxEnts {keep : List (Nat × Rec × Nat)} {e : IEnt} (h : e ∈ cpxEnts keep) :
+    ∃ p, keep[e.off - 1]? = some p ∧ 1 ≤ e.off ∧ e.key = p.2.1.id ∧ e.size = p.2.1.size := by
+  unfold cpxEnts at h
+  obtain ⟨q, hq, rfl⟩ := List.mem_map.1 h
+  obtain ⟨p, j⟩ := q
+  have := List.mk_mem_zipIdx_iff_le_and_getElem?_sub.1 hq
+  exact ⟨p, this.2, this.1, rfl, rfl⟩
+
+theorem cpxEnts_of_mem {keep : List (Nat × Rec × Nat)} {p : Nat × Rec × Nat} (h : p ∈ keep) :
+    ∃ e ∈ cpxEnts keep, e.key = p.2.1.id := by
+  obtain ⟨i, hi⟩ := List.mem_iff_getElem?.1 h
+  refine ⟨⟨p.2.1.id, i + 1, p.2.1.size⟩, ?_, rfl⟩
+  unfold cpxEnts
+  refine List.mem_map.2 ⟨(p, i + 1), ?_, rfl⟩
+  exact List.mk_mem_zipIdx_iff_le_and_getElem?_sub.2 ⟨by omega, by simpa using hi⟩
+
+
+/-! ## well-formed volumes and the copy phases -/
+
+structure WF (s : CVol) : Prop where
+  bound : ∀ k e, s.v.idx k = some e → e.off ≠ 0 ∧ e.off ≤ s.v.log.length
+  own   : ∀ k e r, s.v.idx k = some e → recAt s.v.log e.off = some r → r.id = k ∧ (0 ≤ e.size → r.size = e.size)
+  mem   : ∀ k, mget (loadFromIdx s.ilog) k =
+            (match s.v.idx k with
+             | some e => if 0 ≤ e.size then some ⟨k, e.off, e.size⟩ else none
+             | none => none)
+  len   : s.ats.length = s.v.log.length
+
+theorem recAt_eq (log : List Rec) {off : Nat} (h : off ≠ 0) : recAt log off = log[off - 1]? := by
+  simp [recAt, h]
+
+theorem recAt_of_bound {log : List Rec} {off : Nat} (h0 : off ≠ 0) (h1 : off ≤ log.length) : ∃ r, recAt log off = some r := by
+  rw [recAt_eq log h0]
+  exact ⟨log[off - 1]'(by omega), List.getElem?_eq_getElem (by omega)⟩
+
+theorem recAt_some_bound {log : List Rec} {off : Nat} {r : Rec} (h : recAt log off = some r) : off ≠ 0 ∧ off ≤ log.length := by
+  by_cases h0 : off = 0
+  · simp [recAt, h0] at h
+  · rw [recAt_eq log h0] at h
+    have := (List.getElem?_eq_some_iff.1 h).1
+    omega
+
+theorem recAt_append_left {log : List Rec} (ext : List Rec) {off : Nat} {r : Rec} (h : recAt log off = some r) :
+    recAt (log ++ ext) off = some r := by
+  have hb := recAt_some_bound h
+  rw [recAt_eq _ hb.1] at h ⊢
+  rw [List.getElem?_append_left (by omega)]; exact h
+
+theorem atOf_append_left (ats ext : List Nat) {off : Nat} (h0 : off ≠ 0) (h1 : off ≤ ats.length) :
+    atOf (ats ++ ext) off = atOf ats off := by
+  unfold atOf
+  rw [List.getD_eq_getElem?_getD, List.getD_eq_getElem?_getD, List.getElem?_append_left (by omega)]
+
+theorem mem_olog (s : CVol) (p : Nat × Rec × Nat) :
+    p ∈ olog s ↔ recAt s.v.log p.1 = some p.2.1 ∧ p.2.2 = atOf s.ats p.1 := by
+  unfold olog
+  constructor
+  · intro h
+    obtain ⟨q, hq, rfl⟩ := List.mem_map.1 h
+    obtain ⟨r, o⟩ := q
+    have := List.mk_mem_zipIdx_iff_le_and_getElem?_sub.1 hq
+    refine ⟨?_, rfl⟩
+    show recAt s.v.log o = some r
+    rw [recAt_eq _ (by omega)]; exact this.2
+  · intro ⟨h1, h2⟩
+    obtain ⟨o, r, a⟩ := p
+    simp only at h1 h2
+    have hb := recAt_some_bound h1
+    refine List.mem_map.2 ⟨(r, o), ?_, by simp [h2]⟩
+    rw [recAt_eq _ hb.1] at h1
+    exact List.mk_mem_zipIdx_iff_le_and_getElem?_sub.2 ⟨by omega, h1⟩
+
+def KeepSound (s : CVol) (keep : List (Nat × Rec × Nat)) : Prop :=
+  ∀ p ∈ keep, recAt s.v.log p.1 = some p.2.1 ∧ p.2.2 = atOf s.ats p.1 ∧
+    s.v.idx p.2.1.id = some ⟨p.1, p.2.1.size⟩ ∧ 0 ≤ p.2.1.size
+
+def KeepComplete (s : CVol) (nowSec : Nat) (keep : List (Nat × Rec × Nat)) : Prop :=
+  ∀ k e r, s.v.idx k = some e → 0 < e.size → recAt s.v.log e.off = some r →
+    dropsTtl s nowSec r (atOf s.ats e.off) = false → (e.off, r, atOf s.ats e.off) ∈ keep
+
+theorem keepScan_sound {s : CVol} (hw : WF s) (nowSec : Nat) : KeepSound s (keepScan s nowSec) := by
+  intro p hp
+  unfold keepScan at hp
+  obtain ⟨hm, hpred⟩ := List.mem_filter.1 hp
+  obtain ⟨h1, h2⟩ := (mem_olog s p).1 hm
+  simp only [Bool.and_eq_true] at hpred
+  obtain ⟨_, hidx⟩ := hpred
+  cases hi : s.v.idx p.2.1.id with
+  | none => simp [hi] at hidx
+  | some e =>
+    simp only [hi, Bool.and_eq_true, beq_iff_eq, decide_eq_true_eq] at hidx
+    obtain ⟨heo, hes⟩ := hidx
+    have := hw.own _ e p.2.1 hi (heo ▸ h1)
+    have hsz := this.2 (by omega)
+    refine ⟨h1, h2, ?_, by omega⟩
+    cases e; simp only at heo hsz ⊢; subst heo; rw [hsz]
+
+theorem keepScan_complete {s : CVol} (hw : WF s) (nowSec : Nat) : KeepComplete s nowSec (keepScan s nowSec) := by
+  intro k e r hi hs hr hd
+  unfold keepScan
+  refine List.mem_filter.2 ⟨(mem_olog s _).2 ⟨hr, rfl⟩, ?_⟩
+  have := (hw.own k e r hi hr).1
+  simp [hd, this, hi, hs]
+
+theorem mget_of_mem {l : List IEnt} (h : KeysLt l) {e : IEnt} (he : e ∈ l) : mget l e.key = some e := by
+  induction l with
+  | nil => cases he
+  | cons x xs ih =>
+    unfold KeysLt at h
+    rw [List.pairwise_cons] at h
+    rw [mget_cons]
+    rcases List.mem_cons.1 he with he | he
+    · subst he; simp
+    · have := h.1 e he
+      have hne : ¬ x.key = e.key := by omega
+      simp only [hne, if_false]
+      exact ih h.2 he
+
+theorem keepIdx_sound {s : CVol} (hw : WF s) (nowSec : Nat) : KeepSound s (keepIdx s nowSec) := by
+  intro p hp
+  unfold keepIdx at hp
+  obtain ⟨e, he, hb⟩ := List.mem_filterMap.1 hp
+  by_cases hd : e.off = 0 ∨ e.size < 0
+  · simp [hd] at hb
+  · simp only [hd, if_false] at hb
+    cases hr : recAt s.v.log e.off with
+    | none => simp [hr] at hb
+    | some r =>
+      simp only [hr] at hb
+      by_cases hsz : r.size = e.size
+      · simp only [hsz, not_true_eq_false, if_false] at hb
+        by_cases hdr : dropsTtl s nowSec r (atOf s.ats e.off) = true
+        · simp [hdr] at hb
+        · simp only [hdr, if_false] at hb
+          cases hb
+          have hmg := mget_of_mem (keysLt_loadFromIdx s.ilog) he
+          rw [hw.mem e.key] at hmg
+          cases hi : s.v.idx e.key with
+          | none => simp [hi] at hmg
+          | some e' =>
+            simp only [hi] at hmg
+            by_cases hpos : 0 ≤ e'.size
+            · simp only [hpos, if_true, Option.some.injEq] at hmg
+              have ho : e'.off = e.off := by rw [← hmg]
+              have hs' : e'.size = e.size := by rw [← hmg]
+              have hown := hw.own e.key e' r hi (ho ▸ hr)
+              refine ⟨hr, rfl, ?_, by simp only; omega⟩
+              simp only
+              rw [hown.1, hi]
+              cases e'; simp only at ho hs' ⊢; rw [ho, hs', hsz]
+            · simp [hpos] at hmg
+      · simp [hsz] at hb
+
+theorem keepIdx_complete {s : CVol} (hw : WF s) (nowSec : Nat) : KeepComplete s nowSec (keepIdx s nowSec) := by
+  intro k e r hi hs hr hd
+  unfold keepIdx
+  have hm := hw.mem k
+  simp only [hi] at hm
+  have hpos : 0 ≤ e.size := by omega
+  simp only [hpos, if_true] at hm
+  have hmem := (mget_some hm).1
+  refine List.mem_filterMap.2 ⟨_, hmem, ?_⟩
+  have hb := hw.bound k e hi
+  have hown := hw.own k e r hi hr
+  have : ¬ (e.off = 0 ∨ e.size < 0) := by omega
+  simp [this, hr, hown.2 hpos, hd]
+
+theorem keepOf_sound {s : CVol} (hw : WF s) (alg nowSec : Nat) : KeepSound s (keepOf s alg nowSec) := by
+  unfold keepOf; split
+  · exact keepScan_sound hw nowSec
+  · exact keepIdx_sound hw nowSec
+
+theorem keepOf_complete {s : CVol} (hw : WF s) (alg nowSec : Nat) : KeepComplete s nowSec (keepOf s alg nowSec) := by
+  unfold keepOf; split
+  · exact keepScan_complete hw nowSec
+  · exact keepIdx_complete hw nowSec
+
+/-! ## reads -/
+
+theorem view_none_idx {s : CVol} {k : Nat} (t : Nat) (h : s.v.idx k = none) : view s t k = none := by
+  simp [view, readT, readStep, h]
+
+theorem view_neg {s : CVol} {k : Nat} {e : Ent} (t : Nat) (h : s.v.idx k = some e) (hs : e.size < 0) : view s t k = none := by
+  by_cases h0 : e.off = 0
+  · simp [view, readT, readStep, h, h0]
+  · simp [view, readT, readStep, h, h0, hs]
+
+theorem view_live {s : CVol} {k off : Nat} {sz : Int} {r : Rec} (t : Nat) (hi : s.v.idx k = some ⟨off, sz⟩)
+    (hoff : off ≠ 0) (hsz : 0 < sz) (hr : recAt s.v.log off = some r) (hrs : r.size = sz) :
+    view s t k = if SwV.Model.C09.readable (needleOf r.c (atOf s.ats off)) t = true then some (r.cookie, r.c) else none := by
+  have h1 : ¬ sz < 0 := by omega
+  have h2 : ¬ sz = 0 := by omega
+  by_cases hrd : SwV.Model.C09.readable (needleOf r.c (atOf s.ats off)) t = true
+  · simp [view, readT, readStep, hi, hoff, h1, h2, hr, hrs, hsz, hrd]
+  · simp [view, readT, readStep, hi, hoff, h1, h2, hr, hrs, hsz, hrd]
+
+theorem view_empty {s : CVol} {k off : Nat} (t : Nat) (hi : s.v.idx k = some ⟨off, 0⟩) (hoff : off ≠ 0) :
+    view s t k = some (0, Content.empty) := by
+  simp [view, readT, readStep, hi, hoff]
+
+
+/-! ## what one C01 step does to the log and the index -/
+open SwV.Spec.C01 (opId)
+
+inductive Eff (v v' : Vol) (op : Op) : Prop
+  | same (h1 : v'.log = v.log) (h2 : v'.idx = v.idx) : Eff v v' op
+  | put (x : Rec) (h1 : v'.log = v.log ++ [x]) (hid : x.id = opId op) (hw : ∃ id ck c, op = .write id ck c)
+        (h2 : v'.idx = setIdx v.idx (opId op) ⟨v.log.length + 1, x.size⟩) (h3 : 0 ≤ x.size) : Eff v v' op
+  | noput (x : Rec) (h1 : v'.log = v.log ++ [x]) (h2 : v'.idx = v.idx) (e : Ent) (h3 : v.idx (opId op) = some e)
+        (h4 : ¬ e.off < v.log.length + 1) : Eff v v' op
+  | del (x : Rec) (e : Ent) (h1 : v'.log = v.log ++ [x]) (hd : (∃ id ck, op = .delete id ck) ∨ (∃ id ck, op = .hdelete id ck))
+        (h3 : v.idx (opId op) = some e) (h4 : 0 < e.size)
+        (h2 : v'.idx = setIdx v.idx (opId op) ⟨e.off, -e.size⟩) (hx : x.id = opId op) : Eff v v' op
+
+theorem write_eff (v : Vol) (id ck : Nat) (c : Content) : Eff v (writeStep v id ck c).1 (.write id ck c) := by
+  unfold writeStep
+  split
+  · exact .same rfl rfl
+  · simp only
+    split
+    · exact .same rfl rfl
+    · split
+      · exact .same rfl rfl
+      · rename_i hcc
+        cases hi : v.idx id with
+        | none =>
+          simp only [hi]
+          refine .put _ rfl rfl ⟨id, ck, c, rfl⟩ ?_ (by simp)
+          simp [opId]
+        | some e =>
+          simp only [hi]
+          by_cases hlt : e.off < v.log.length + 1
+          · refine .put _ rfl rfl ⟨id, ck, c, rfl⟩ ?_ (by simp)
+            simp [opId, hlt]
+          · refine .noput _ rfl ?_ e (by simp [opId, hi]) hlt
+            simp [hlt]
+
+theorem delete_eff (v : Vol) (id ck : Nat) (op : Op) (hop : op = .delete id ck ∨ op = .hdelete id ck) :
+    Eff v (deleteStep v id ck).1 op := by
+  have hid : opId op = id := by rcases hop with h | h <;> simp [h, opId]
+  unfold deleteStep
+  split
+  · exact .same rfl rfl
+  · cases hi : v.idx id with
+    | none => exact .same rfl rfl
+    | some e =>
+      simp only
+      split
+      · rename_i hs
+        refine .del _ e rfl ?_ (hid ▸ hi) hs (by rw [hid]) (by simp [hid])
+        rcases hop with h | h
+        · exact Or.inl ⟨id, ck, h⟩
+        · exact Or.inr ⟨id, ck, h⟩
+      · exact .same rfl rfl
+
+theorem step_eff (v : Vol) (op : Op) : Eff v (step v op).1 op := by
+  cases op with
+  | write id ck c => exact write_eff v id ck c
+  | delete id ck => exact delete_eff v id ck _ (Or.inl rfl)
+  | read id ck => exact .same rfl rfl
+  | setRO b => exact .same rfl rfl
+  | hread id ck => exact .same rfl rfl
+  | hdelete id ck =>
+    simp only [step]
+    unfold httpDelete
+    split
+    · split
+      · exact .same rfl rfl
+      · have := delete_eff v id ck (.hdelete id ck) (Or.inr rfl)
+        split <;> rename_i h <;> (rw [h] at this; exact this)
+    · exact .same rfl rfl
+
+
+/-! ## the idx suffix written by the operations that run while the copy is in flight -/
+
+structure Suf (s0 s : CVol) (ext : List Rec) (exta : List Nat) (suf : List IEnt) : Prop where
+  hlog : s.v.log = s0.v.log ++ ext
+  hats : s.ats = s0.ats ++ exta
+  hlen : ext.length = exta.length
+  hilog : s.ilog = s0.ilog ++ suf
+  hsnap : s.snap = s0.snap
+  hrev : s.rev = s0.rev
+  hkind : s.kind = s0.kind
+  bound : ∀ k e, s.v.idx k = some e → e.off ≠ 0 ∧ e.off ≤ s.v.log.length
+  own : ∀ k e r, s.v.idx k = some e → recAt s.v.log e.off = some r → r.id = k ∧ (0 ≤ e.size → r.size = e.size)
+  key : ∀ k, match lastFor suf k with
+        | none => s.v.idx k = s0.v.idx k
+        | some e => e.off ≠ 0 ∧ (0 ≤ e.size → s.v.idx k = some ⟨e.off, e.size⟩) ∧
+                    (e.size < 0 → ∃ e', s.v.idx k = some e' ∧ e'.size < 0)
+
+theorem suf_refl {s0 : CVol} (hw : WF s0) : Suf s0 s0 [] [] [] :=
+  ⟨by simp, by simp, rfl, by simp, rfl, rfl, rfl, hw.bound, hw.own, fun k => by simp [lastFor]⟩
+
+theorem suf_append {s0 s s' : CVol} {ext : List Rec} {exta : List Nat} {suf : List IEnt} (hs : Suf s0 s ext exta suf)
+    (x : Rec) (t id : Nat) (e' : Ent) (ent : IEnt)
+    (hl : s'.v.log = s.v.log ++ [x]) (hi : s'.v.idx = setIdx s.v.idx id e') (ha : s'.ats = s.ats ++ [t])
+    (hil : s'.ilog = s.ilog ++ [ent]) (hsn : s'.snap = s.snap) (hrv : s'.rev = s.rev) (hkd : s'.kind = s.kind)
+    (hk : ent.key = id) (ho : ent.off = s.v.log.length + 1) (hx : x.id = id)
+    (hpos : 0 ≤ ent.size → e' = ⟨ent.off, ent.size⟩ ∧ x.size = ent.size)
+    (hneg : ent.size < 0 → e'.size < 0 ∧ ∃ e, s.v.idx id = some e ∧ e'.off = e.off) :
+    Suf s0 s' (ext ++ [x]) (exta ++ [t]) (suf ++ [ent]) := by
+  have hoff' : e'.off ≠ 0 ∧ e'.off ≤ s.v.log.length + 1 := by
+    by_cases hp : 0 ≤ ent.size
+    · have := (hpos hp).1; rw [this]; simp only; omega
+    · obtain ⟨_, e, he, heo⟩ := hneg (by omega)
+      have := hs.bound id e he
+      omega
+  refine ⟨by rw [hl, hs.hlog, List.append_assoc], by rw [ha, hs.hats, List.append_assoc], by simp [hs.hlen],
+    by rw [hil, hs.hilog, List.append_assoc], hsn.trans hs.hsnap, hrv.trans hs.hrev, hkd.trans hs.hkind, ?_, ?_, ?_⟩
+  · intro k e hke
+    rw [hi] at hke
+    rw [hl, List.length_append]
+    by_cases hkid : k = id
+    · subst hkid; rw [setIdx_same] at hke; cases hke; simp; exact hoff'
+    · rw [setIdx_ne _ _ hkid] at hke
+      have := hs.bound k e hke
+      simp; omega
+  · intro k e r hke hr
+    rw [hi] at hke
+    rw [hl] at hr
+    by_cases hkid : k = id
+    · subst hkid; rw [setIdx_same] at hke; cases hke
+      by_cases hp : 0 ≤ ent.size
+      · obtain ⟨he', hxs⟩ := hpos hp
+        subst he'
+        simp only at hr
+        have hnew : recAt (s.v.log ++ [x]) (s.v.log.length + 1) = some x := by simp [recAt]
+        rw [ho, hnew] at hr
+        have hrr : x = r := Option.some.inj hr
+        rw [← hrr]
+        exact ⟨hx, fun _ => hxs⟩
+      · obtain ⟨hn, e0, he0, heo⟩ := hneg (by omega)
+        have hb := hs.bound _ e0 he0
+        obtain ⟨r0, hr0⟩ := recAt_of_bound hb.1 hb.2
+        rw [heo, recAt_append_left [x] hr0] at hr
+        have hrr : r0 = r := Option.some.inj hr
+        rw [← hrr]
+        exact ⟨(hs.own _ e0 r0 he0 hr0).1, fun h => by omega⟩
+    · rw [setIdx_ne _ _ hkid] at hke
+      have hb := hs.bound k e hke
+      obtain ⟨r0, hr0⟩ := recAt_of_bound hb.1 hb.2
+      rw [recAt_append_left [x] hr0] at hr
+      have hrr : r0 = r := Option.some.inj hr
+      rw [← hrr]
+      exact hs.own k e r0 hke hr0
+  · intro k
+    rw [lastFor_append]
+    by_cases hkid : k = id
+    · subst hkid
+      have : lastFor [ent] ent.key = some ent := by simp [lastFor]
+      rw [hk] at this
+      rw [this]
+      simp only [Option.some_or]
+      refine ⟨by omega, ?_, ?_⟩
+      · intro hp; rw [hi, setIdx_same, (hpos hp).1]
+      · intro hn; rw [hi, setIdx_same]; exact ⟨e', rfl, (hneg hn).1⟩
+    · have : lastFor [ent] k = none := by
+        have : ¬ ent.key = k := fun h => hkid (h.symm.trans hk)
+        simp [lastFor, this]
+      rw [this]
+      simp only [Option.none_or]
+      have := hs.key k
+      rw [hi, setIdx_ne _ _ hkid]
+      exact this
+
+theorem suf_step {s0 s : CVol} {ext : List Rec} {exta : List Nat} {suf : List IEnt} (hs : Suf s0 s ext exta suf)
+    (t : Nat) (op : Op) : ∃ ext' exta' suf', Suf s0 (opStep s t op).1 ext' exta' suf' := by
+  have heff := step_eff s.v op
+  unfold opStep
+  cases heff with
+  | same h1 h2 =>
+    simp only [h1, if_true]
+    exact ⟨ext, exta, suf, by simpa [h1] using hs.hlog, hs.hats, hs.hlen, hs.hilog, hs.hsnap, hs.hrev, hs.hkind,
+      by simpa [h1, h2] using hs.bound, by simpa [h1, h2] using hs.own, by simpa [h2] using hs.key⟩
+  | put x h1 hid hw h2 h3 =>
+    have hne : ¬ (step s.v op).1.log.length = s.v.log.length := by rw [h1]; simp
+    simp only [hne, if_false]
+    obtain ⟨id, ck, c, rfl⟩ := hw
+    have hida : idxAppend (step s.v (Op.write id ck c)).1 (s.v.log.length + 1) (Op.write id ck c)
+        = [⟨id, s.v.log.length + 1, x.size⟩] := by
+      simp only [idxAppend, h2, opId, setIdx_same]; simp
+    rw [hida]
+    exact ⟨_, _, _, suf_append hs x t id ⟨s.v.log.length + 1, x.size⟩ ⟨id, s.v.log.length + 1, x.size⟩ h1 h2 rfl rfl rfl rfl rfl
+      rfl rfl hid (fun _ => ⟨rfl, rfl⟩) (fun h => by simp at h; omega)⟩
+  | noput x h1 h2 e h3 h4 =>
+    have := hs.bound _ e h3
+    omega
+  | del x e h1 hd h3 h4 h2 hx =>
+    have hne : ¬ (step s.v op).1.log.length = s.v.log.length := by rw [h1]; simp
+    simp only [hne, if_false]
+    have hida : idxAppend (step s.v op).1 (s.v.log.length + 1) op = [⟨opId op, s.v.log.length + 1, -1⟩] := by
+      rcases hd with ⟨id, ck, rfl⟩ | ⟨id, ck, rfl⟩ <;> simp [idxAppend, opId]
+    rw [hida]
+    exact ⟨_, _, _, suf_append hs x t (opId op) ⟨e.off, -e.size⟩ ⟨opId op, s.v.log.length + 1, -1⟩ h1 h2 rfl rfl rfl rfl rfl
+      rfl rfl hx (fun h => by simp at h) (fun _ => ⟨by simp; omega, e, h3, rfl⟩)⟩
+
+theorem suf_run {s0 s : CVol} {ext : List Rec} {exta : List Nat} {suf : List IEnt} (hs : Suf s0 s ext exta suf)
+    (ops : List (Nat × Op)) : ∃ ext' exta' suf', Suf s0 (runOps s ops) ext' exta' suf' := by
+  induction ops generalizing s ext exta suf with
+  | nil => exact ⟨ext, exta, suf, hs⟩
+  | cons o ops ih =>
+    obtain ⟨t, op⟩ := o
+    obtain ⟨e1, e2, e3, h⟩ := suf_step hs t op
+    exact ih h
 
 end SwV.Lemmas.C04
